@@ -122,7 +122,14 @@ fn check_field_list(
         }
         // shape against the registry (a field without the marker must not stand for a Compact type
         // when codec attributes are on: bisim_field reports that as compact vs non-compact)
-        ctx.bisim_field(r.ty.id, &s.ty, s.compact, &format!("{at}.{i}"))?;
+        // Without codec attributes the generated module documents that it drops compact markers (and
+        // variant indices): the SCALE shape is then not claimed, the agreement with the enum's own
+        // variant above still is.
+        if spec.codec {
+            ctx.bisim_field(r.ty.id, &s.ty, s.compact, &format!("{at}.{i}"))?;
+        } else if s.compact {
+            return Err(format!("{at}: field {i} carries a compact marker although codec attributes are off"));
+        }
     }
     // derives: exactly the global ones (+ CompactAs under the single-unsigned-field rule)
     let mut want: BTreeSet<String> = spec.global_derives.iter().map(|d| genmod::nospace(d)).collect();
@@ -211,7 +218,7 @@ impl Property for C18 {
         "C18"
     }
     fn rule(&self) -> String {
-        "tape -> program -> registry -> settings (global derives/attributes, compact-as path on/off, alloc path, root name) -> \
+        "tape -> program -> registry -> settings (global derives/attributes, compact-as path on/off, alloc path, root name, insert_codec_attributes mostly on; off: shape clause (a) not evaluated) -> \
          generate_types_mod; then for EVERY struct and EVERY variant of every emitted item without generic parameters: \
          create_composite_ir_kind + CompositeIR::new + upcast_composite -> tokens, parsed and compared with (a) the registry field list \
          by the C01 shape oracle inside the generated module, (b) the tokens and compact markers of the same variant in the emitted enum, \
@@ -240,7 +247,11 @@ impl Property for C18 {
                     return Ok(());
                 };
                 let reg = &case.low.registry;
-                let spec = gen_settings(&mut t, reg, &SettingsOpts::wire());
+                let mut spec = gen_settings(&mut t, reg, &SettingsOpts::wire());
+                if t.chance(40) {
+                    spec.codec = false;
+                    stats.label("codec_attributes_off");
+                }
                 let text = case.gen.prog.to_text();
                 let decoded = || -> Value { json!({"program": text, "settings": spec.to_json(), "registry": registry_json(reg)}) };
                 let GenResult::Ok(out) = run_typegen(reg, &spec) else {
